@@ -25,6 +25,8 @@ func init() {
 func runC12(p *eng.Prog, r *eng.Report, tier string) {
 	c := &cx{p, r, tier}
 	jidEqualRule(c, "C12.8")
+	c12HeaderBufferPerCall(c, "C12.10")
+	c.r.Floor("C12.9", "fmt.Errorf and errors.New calls examined in xmpp, stream, internal/stream, internal/decl", errorsKeepIdentity(c, "C12.9", []string{"", "stream", "internal/stream", "internal/decl"}), 30)
 	// C12.6 the id the bind answer repeats is the request's own id attribute
 	ownAttrLookups(c, "C12.6", func(f *eng.Fn) bool { return strings.HasPrefix(f.Short, "xmpp.bind") })
 	// C12.3 version numbers (and every other number read from a header) are
@@ -790,4 +792,88 @@ func freshDecodeTargets(c *cx, id string, f *eng.Fn, floor int) {
 		c.r.Check(id, f, "decode target of "+cid, "K: XML is decoded into a fresh zero value", cl.Pos(), ok, why)
 	}
 	c.r.Floor(id, "decode targets in "+f.Short, n, floor)
+}
+
+// c12HeaderBufferPerCall (C12.10): the stream header is assembled in storage
+// that belongs to the call. Every local of internal/stream.Send that can be
+// written to (its type, or a pointer to it, implements io.Writer) is defined
+// only by a fresh allocation - bufio.NewWriter*/bytes.NewBuffer*/new/&T{}/a
+// zero declaration - or is the rw parameter itself; no package-level writer
+// and no sync.Pool is mentioned. A buffer that outlives the call (a pool, a
+// package variable) carries the unsent bytes of a failed header into the next
+// session's header: the peer then parses another session's addresses.
+func c12HeaderBufferPerCall(c *cx, id string) {
+	f := c.fn(id, "internal/stream", "Send")
+	if f == nil {
+		return
+	}
+	g := f.Graph()
+	var wr *types.Interface
+	for _, imp := range f.Pkg.Types.Imports() {
+		if imp.Path() == "io" {
+			if o := imp.Scope().Lookup("Writer"); o != nil {
+				wr, _ = o.Type().Underlying().(*types.Interface)
+			}
+		}
+	}
+	if wr == nil {
+		c.r.CheckNamed(id, f.Short, "io.Writer", "anchor", f.Pos(), false, "io.Writer not found")
+		return
+	}
+	isWriter := func(t types.Type) bool {
+		return types.Implements(t, wr) || types.Implements(types.NewPointer(t), wr)
+	}
+	n := 0
+	seen := map[*types.Var]bool{}
+	for _, d := range g.AllDefs() {
+		if d.Var == nil || !isWriter(d.Var.Type()) {
+			continue
+		}
+		seen[d.Var] = true
+		n++
+		ok, why := false, ""
+		switch d.Kind {
+		case eng.DefParam, eng.DefZero:
+			ok = true
+		case eng.DefPlain:
+			switch x := ast.Unparen(d.RHS).(type) {
+			case *ast.CallExpr:
+				cid := f.CalleeID(x)
+				switch {
+				case strings.HasPrefix(cid, "bufio.NewWriter"), strings.HasPrefix(cid, "bytes.NewBuffer"), cid == "builtin.new":
+					ok = true
+				default:
+					why = "defined by " + cid
+				}
+			case *ast.UnaryExpr:
+				_, isLit := ast.Unparen(x.X).(*ast.CompositeLit)
+				ok = x.Op == token.AND && isLit
+				why = "defined by " + types.ExprString(d.RHS)
+			case *ast.CompositeLit:
+				ok = true
+			default:
+				why = "defined by " + types.ExprString(d.RHS)
+			}
+		default:
+			why = "defined by " + c.p.NodeStr(d.Node)
+		}
+		c.r.Check(id, f, "definition of writer "+d.Var.Name(), "E-alias: the header is assembled in storage allocated by this call", d.Node.Pos(), ok, why+": the buffer can outlive the call and carry bytes of another header")
+	}
+	// no shared writer or pool mentioned at all
+	f.WalkBody(func(nd ast.Node) bool {
+		idn, ok := nd.(*ast.Ident)
+		if !ok {
+			return true
+		}
+		v, ok := f.Info().Uses[idn].(*types.Var)
+		if !ok || v.IsField() || v.Pkg() == nil || v.Parent() != v.Pkg().Scope() {
+			return true
+		}
+		ts := eng.TypeStr(v.Type())
+		if isWriter(v.Type()) || strings.Contains(ts, "sync.Pool") {
+			c.r.Check(id, f, "use of package-level "+v.Name(), "E-alias: the header is assembled in storage allocated by this call", idn.Pos(), false, "package-level "+ts+" used while assembling the header")
+		}
+		return true
+	})
+	c.r.Floor(id, "writer definitions in stream.Send", n, 2)
 }
